@@ -71,6 +71,8 @@ type Sched struct {
 	PostSendYields   uint64
 	atomInit, atomOn bool
 	AtomicYields     uint64
+	unlInit, unlOn   bool
+	UnlockYields     uint64
 	// thread-stall fault (off unless StallBudget > 0): at a pre-emption point, with probability
 	// 1/StallDen, the task sleeps 1..StallMaxMs simulated milliseconds
 	StallBudget int
